@@ -133,7 +133,7 @@ def tlc_ok(res, what):
 
 
 # --------------------------------------------------------------------------- replay
-def replay(harness, cases_path, results_path, nworkers=NCPU, limit="5s", extra_args=()):
+def replay(harness, cases_path, results_path, nworkers=NCPU, limit="5s", extra_args=(), obs_path=None):
     """Feeds the cases to nworkers single-goroutine harness processes (round robin).
     A worker that meets a hang exits with 3 after reporting it; the remaining cases of
     its share are given to a fresh worker."""
@@ -155,8 +155,9 @@ def replay(harness, cases_path, results_path, nworkers=NCPU, limit="5s", extra_a
             with open(inp, "w") as f:
                 f.writelines(share)
             fo = open(outp, "w")
-            p = subprocess.Popen([harness, "replay", "-limit", limit] + list(extra_args), stdin=open(inp), stdout=fo,
-                                 stderr=subprocess.PIPE)
+            obs_args = ["-obs", outp + ".obs"] if obs_path else []
+            p = subprocess.Popen([harness, "replay", "-limit", limit] + obs_args + list(extra_args), stdin=open(inp),
+                                 stdout=fo, stderr=subprocess.PIPE)
             procs.append((i, share, p, fo, inp, outp))
         pending = []
         for (i, share, p, fo, inp, outp) in procs:
@@ -167,6 +168,10 @@ def replay(harness, cases_path, results_path, nworkers=NCPU, limit="5s", extra_a
             results.extend(got)
             os.unlink(inp)
             os.unlink(outp)
+            if obs_path and os.path.exists(outp + ".obs"):
+                with open(outp + ".obs") as fsrc, open(obs_path, "a") as fdst:
+                    shutil.copyfileobj(fsrc, fdst)
+                os.unlink(outp + ".obs")
             if p.returncode == 3:
                 rest = share[len(got):]
                 if rest:
@@ -238,3 +243,29 @@ def write_evidence(prop, tier, seed, level, coverage, wall, violations, assumpti
               assumptions=assumptions, wall_s=round(wall, 2), violations=violations)
     with open(os.path.join(EVIDENCE, prop + ".json"), "w") as f:
         json.dump(ev, f, indent=1)
+
+
+# --------------------------------------------------------------------------- trace validation
+REJ_RE = re.compile(r"REJECTED[^{<]*[{<]+([^}>]*)[}>]+")
+
+
+def validate_trace(scratch, module, cfg, trace_path, trace_name="trace.ndjson", timeout=900, sub="trace", java_opts=None):
+    """Runs a TLC trace spec over a recorded ndjson trace.  The trace spec consumes one line
+    per step, accumulates the numbers of the lines it rejects and prints them through
+    POSTCONDITION as  <<"REJECTED", {..}>>  and  <<"CONSUMED", n>>.
+    Returns (consumed, rejected line numbers, tlc result)."""
+    res = run_tlc(scratch, module, cfg, workers=1, timeout=timeout, files={trace_name: trace_path}, sub=sub,
+                  java_opts=java_opts)
+    out = res["out"]
+    if res["rc"] != 0 and "REJECTED" not in out:
+        tail = "\n".join([l for l in out.splitlines() if not l.startswith(("Parsing", "Semantic", "Linting"))][-40:])
+        raise Broken("trace validation failed to run (%s rc=%s):\n%s" % (module, res["rc"], tail))
+    m = re.search(r'"CONSUMED", (\d+)', out)
+    consumed = int(m.group(1)) if m else -1
+    rejected = []
+    m = re.search(r'"REJECTED", \{([^}]*)\}', out)
+    if m:
+        rejected = [int(x) for x in m.group(1).replace(" ", "").split(",") if x]
+    elif '"REJECTED"' not in out:
+        raise Broken("trace spec %s printed no verdict" % module)
+    return consumed, rejected, res
